@@ -37,6 +37,14 @@ func verifSameBytes(got, want []byte, what string) {
 	}
 }
 
+// verifNoDescriptorLeak: every descriptor opened on a chunk file is closed again, on the failure paths too. A
+// descriptor leaked per failed write or per damaged file is how a run of faults ends up blocking the recovery of the
+// intact chunks behind it (open fails with EMFILE once the process runs out of descriptors): the per-operation
+// invariant "no descriptor outlives its operation" is what keeps the property true for any number of damaged files.
+func verifNoDescriptorLeak(fs *fsmodel.FS) {
+	sym.Assert(fs.OpenDescriptors() == 0, "no file descriptor outlives the operation that opened it (a leak per damaged file or failed write exhausts the descriptors and blocks recovery)")
+}
+
 // VerifC04_FaultDuringSpill: one chunk of symbolic length is spilled while the
 // write is cut at an arbitrary byte offset k - as a short write without error,
 // as an error after k bytes, or because the process dies there; or opening
@@ -125,6 +133,9 @@ func VerifC04_FaultDuringSpill() {
 		sym.Reach("forwarded")
 	default:
 		sym.Reach("not-forwarded")
+	}
+	if !crashed { // a process that died holds no descriptors
+		verifNoDescriptorLeak(fs)
 	}
 }
 
@@ -271,6 +282,9 @@ func VerifC04_FaultAtAnyQueuePosition() {
 			sym.Assert(forwarded[i], "a chunk reported as saved before the fault is recovered and forwarded after the restart")
 		}
 	}
+	if !crashed {
+		verifNoDescriptorLeak(fs)
+	}
 }
 
 // VerifC04_DamagedFileDoesNotBlockRecovery: three chunk files from a previous
@@ -365,6 +379,7 @@ func VerifC04_DamagedFileDoesNotBlockRecovery() {
 		sym.Assert(int(m.GaugeValue("persistent_chunks")) == files-droppedButKept, "the file gauge equals the chunk files in the directory that are not counted as dropped")
 		sym.Assert(int(m.GaugeValue("persistent_chunk_bytes")) == bytes, "the byte gauge equals the bytes of the chunk files in the directory")
 	}
+	verifNoDescriptorLeak(fs)
 	sym.Reach("recovered")
 }
 
